@@ -192,6 +192,9 @@ pub fn decode_case(data: &[u8], fam: Family) -> Case {
     if subj.is_collection() {
         cfg.child_kind = [0u8, 0, 0, 1, 2][b(u) as usize % 5];
         cfg.inexact_iter = b(u) % 4 == 0;
+        if cfg.inexact_iter {
+            cfg.iter_short = [0u16, 0, 1, 2, 3, 40][b(u) as usize % 6];
+        }
     }
     let repolls = b(u) % 4;
     let merge = subj.is_merge();
